@@ -3,7 +3,7 @@
    what the real builds left behind, system-call traces of real builds checked
    against the population protocols. *)
 From Apko Require Export Base.Prelude Model.Cache Spec.CacheSpec Model.CacheFlight Spec.CacheFlightSpec.
-From Apko Require Import Proofs.CacheFlightProofs Generated.C19Cache.
+From Apko Require Import Proofs.CacheFlightProofs Generated.C19Cache Model.CacheTimes.
 Open Scope string_scope. Open Scope list_scope.
 
 (* the order of cachePackage's AdvertiseCachedFile calls in the source of this run
@@ -259,6 +259,37 @@ Definition check_names (c : names_case) : list string :=
              "mismatch:file-name-differs-from-model"
   end.
 
+(* ---- modification times of the advertised index entries -------------------------------
+   A sequence of build processes on one cache directory (each: HEAD answered with one etag, GET
+   with one — the same unless the repository is updated in between); observed: the advertised
+   names of APKINDEX/ in the order of their real modification times (os.Lstat).  The model runs
+   the index downloads one after the other on one clock (build j owns the steps j*64 … j*64+63,
+   its HEAD is the first of them) and orders the names by the times [trun] gives them. *)
+Record times_case := { tc2_tab : origin_table; tc2_dir : string;
+                       tc2_builds : list (string * string);      (* etag at the HEAD, etag at the GET *)
+                       tc2_observed : list string }.             (* etags, oldest modification time first *)
+Definition win := 64.
+Definition srv_seq (tab : origin_table) (builds : list (string * string)) : server :=
+  fun t dir => let b := nth (t / win) builds ("", "") in
+               let e := if Nat.eqb (t mod win) 0 then fst b else snd b in (e, origin_of tab (PIndex dir e)).
+Fixpoint insert_by (k : string * nat) (l : list (string * nat)) : list (string * nat) :=
+  match l with
+  | [] => [k]
+  | h :: t => if Nat.leb (snd k) (snd h) then k :: l else h :: insert_by k t
+  end.
+Definition model_time_order (tab : origin_table) (dir : string) (builds : list (string * string)) : list string :=
+  let n := List.length builds in
+  let progs := List.map (fun j => [Head j dir false]) (List.seq 0 n) in
+  let sched := List.flat_map (fun j => repeat j win) (List.seq 0 n) in
+  let st := trun (fun z => z) (srv_seq tab builds) {| dsk := empty_disk; procs := progs; clk := 0 |} sched in
+  let names := List.flat_map (fun e => match e with (PIndex d x, _) => if String.eqb d dir then [x] else [] | _ => [] end) tab in
+  let timed := List.flat_map (fun x => match dsk (fst st) (PIndex dir x), snd st (PIndex dir x) with
+                                       | Some _, Some k => [(x, k)] | _, _ => [] end) names in
+  List.map fst (fold_right insert_by [] timed).
+Definition check_times (c : times_case) : list string :=
+  tag_if (negb (list_eqb String.eqb (model_time_order (tc2_tab c) (tc2_dir c) (tc2_builds c)) (tc2_observed c)))
+         "mismatch:order-of-index-modification-times-differs-from-model".
+
 (* ---- one case type for the generated files -------------------------------------- *)
 Inductive c19_case :=
 | CListing (c : listing_case)
@@ -267,7 +298,8 @@ Inductive c19_case :=
 | CFlightSeq (c : flight_seq_case)
 | CFlightConc (c : flight_conc_case)
 | COffline (c : offline_case)
-| CNames (c : names_case).
+| CNames (c : names_case)
+| CTimes (c : times_case).
 Definition check_c19 (c : c19_case) : list string :=
   match c with
   | CListing c => check_listing c
@@ -277,4 +309,5 @@ Definition check_c19 (c : c19_case) : list string :=
   | CFlightConc c => check_flight_conc c
   | COffline c => check_offline c
   | CNames c => check_names c
+  | CTimes c => check_times c
   end.
